@@ -100,83 +100,87 @@ structure Env where
 
 def Env.lookup (e : Env) (n : Str) : Option V := (e.params.find? (·.1 = n)).map (·.2)
 
+/-- all named parameters, in order; `none` if one is undefined -/
+def lookupAll (e : Env) : List Str → Option (List V)
+  | [] => some []
+  | n :: ns =>
+    match e.lookup n, lookupAll e ns with
+    | some v, some vs => some (v :: vs)
+    | _, _ => none
+
 def findMethod (f : MockF) (m : Str) : Option MethodF := f.methods.find? (·.name = m)
 
-mutual
-/-- run the statements of one generated function -/
-def execStmts (c : Cfg) (d : Nat) : Nat → List Stmt → Env → St → St × List Ev × Outcome
-  | 0, _, _, s => (s, [], .outOfFuel)
-  | _ + 1, [], _, s => (s, [], .ret [])
-  | fuel + 1, st :: rest, e, s =>
+/-- how user code is entered: given the behaviour of the configured function and the state at
+    entry, the state, events and outcome of running it -/
+abbrev Callback := Beh → St → St × List Ev × Outcome
+
+/-- run the statements of one generated function; `cb` runs a configured function -/
+def execStmts (c : Cfg) (cb : Callback) : List Stmt → Env → St → St × List Ev × Outcome
+  | [], _, s => (s, [], .ret [])
+  | st :: rest, e, s =>
     match st with
     | .nilPanic m msg =>
-      if (c.funcs m).isNone then (s, [], .panicNil msg) else execStmts c d fuel rest e s
+      if (c.funcs m).isNone then (s, [], .panicNil msg) else execStmts c cb rest e s
     | .mkInfo fs =>
-      match fs.mapM (fun (f, _, p) => (e.lookup p).map fun v => (f, v)) with
+      match lookupAll e (fs.map (·.2.2)) with
       | none => (s, [], .fatal s%"undefined parameter")
-      | some r => execStmts c d fuel rest { e with info := r } s
+      | some vs => execStmts c cb rest { e with info := (fs.map (·.1)).zip vs } s
     | .lock m =>
       if s.wlocked m || s.rlocked m > 0 then (s, [], .deadlock)
-      else execStmts c d fuel rest e { s with wlocked := upd s.wlocked m true }
+      else execStmts c cb rest e { s with wlocked := upd s.wlocked m true }
     | .unlock m =>
       if !s.wlocked m then (s, [], .fatal s%"sync: Unlock of unlocked RWMutex")
-      else execStmts c d fuel rest e { s with wlocked := upd s.wlocked m false }
+      else execStmts c cb rest e { s with wlocked := upd s.wlocked m false }
     | .rlock m =>
       if s.wlocked m then (s, [], .deadlock)
-      else execStmts c d fuel rest e { s with rlocked := upd s.rlocked m (s.rlocked m + 1) }
+      else execStmts c cb rest e { s with rlocked := upd s.rlocked m (s.rlocked m + 1) }
     | .runlock m =>
       if s.rlocked m = 0 then (s, [], .fatal s%"sync: RUnlock of unlocked RWMutex")
-      else execStmts c d fuel rest e { s with rlocked := upd s.rlocked m (s.rlocked m - 1) }
+      else execStmts c cb rest e { s with rlocked := upd s.rlocked m (s.rlocked m - 1) }
     | .appendInfo m =>
       let s' := appendRec c.grow s m e.info
-      let (s'', evs, o) := execStmts c d fuel rest e s'
+      let (s'', evs, o) := execStmts c cb rest e s'
       (s'', .recorded m e.info :: evs, o)
     | .stubReturn m vars =>
-      if (c.funcs m).isNone then (s, [], .ret (vars.map fun _ => 0)) else execStmts c d fuel rest e s
+      if (c.funcs m).isNone then (s, [], .ret (vars.map fun _ => 0)) else execStmts c cb rest e s
     | .invoke m args _ =>
       match c.funcs m with
       | none => (s, [], .panicNil s%"invalid memory address or nil pointer dereference")
       | some b =>
-        match args.mapM (fun (a, _) => e.lookup a) with
+        match lookupAll e (args.map (·.1)) with
         | none => (s, [], .fatal s%"undefined argument")
         | some vs =>
           let spread := (args.getLast?.map (·.2)).getD false
-          let (s', evs, o) := runOps c (d + 1) fuel (if d < c.maxDepth then b.ops else []) s
-          match o with
-          | .ret _ =>
-            (s', .invoked m vs spread :: evs,
-              match b.panics with
-              | some v => .panicUser v
-              | none => .ret b.results)
-          | bad => (s', .invoked m vs spread :: evs, bad)
-    | .declCalls _ => execStmts c d fuel rest e s
-    | .readCalls m => execStmts c d fuel rest { e with calls := s.hdr m, callsOf := m } s
+          let (s', evs, o) := cb b s
+          (s', .invoked m vs spread :: evs, o)
+    | .declCalls _ => execStmts c cb rest e s
+    | .readCalls m => execStmts c cb rest { e with calls := s.hdr m, callsOf := m } s
     | .returnCalls => (s, [.snapshot e.callsOf e.calls (s.contents e.callsOf e.calls)], .ret [])
     | .clearCalls m =>
-      let (s', evs, o) := execStmts c d fuel rest e { s with hdr := upd s.hdr m Hdr.nil }
+      let (s', evs, o) := execStmts c cb rest e { s with hdr := upd s.hdr m Hdr.nil }
       (s', .cleared m :: evs, o)
 
-/-- one operation of user code -/
+/-- the generated function an operation of user code calls, with its arguments bound -/
+def opBody (f : MockF) : UOp → Option (List Stmt × Env)
+  | .call m args => (findMethod f m).map fun mf => (mf.body, { params := (mf.params.map (·.name)).zip args })
+  | .calls m => (findMethod f m).map fun mf => (mf.callsBody, { params := [] })
+  | .resetOne m => ((findMethod f m).bind (·.resetBody)).map fun b => (b, { params := [] })
+  | .resetAll => f.resetAll.map fun b => (b, { params := [] })
+
+/-- outcome of a configured function once its own operations are done -/
+def finish (b : Beh) : St × List Ev × Outcome → St × List Ev × Outcome
+  | (s, evs, .ret _) => (s, evs, match b.panics with | some v => .panicUser v | none => .ret b.results)
+  | bad => bad
+
+mutual
+/-- one operation of user code at nesting depth `d` -/
 def runOp (c : Cfg) (d : Nat) : Nat → UOp → St → St × List Ev × Outcome
   | 0, _, s => (s, [], .outOfFuel)
   | fuel + 1, op, s =>
-    match op with
-    | .call m args =>
-      match findMethod c.file m with
-      | none => (s, [], .fatal s%"no such method")
-      | some mf => execStmts c d fuel mf.body { params := (mf.params.map (·.name)).zip args } s
-    | .calls m =>
-      match findMethod c.file m with
-      | none => (s, [], .fatal s%"no such method")
-      | some mf => execStmts c d fuel mf.callsBody { params := [] } s
-    | .resetOne m =>
-      match (findMethod c.file m).bind (·.resetBody) with
-      | none => (s, [], .fatal s%"no such method")
-      | some b => execStmts c d fuel b { params := [] } s
-    | .resetAll =>
-      match c.file.resetAll with
-      | none => (s, [], .fatal s%"no such method")
-      | some b => execStmts c d fuel b { params := [] } s
+    match opBody c.file op with
+    | none => (s, [], .fatal s%"no such method")
+    | some (body, env) =>
+      execStmts c (fun b s' => finish b (runOps c (d + 1) fuel (if d < c.maxDepth then b.ops else []) s')) body env s
 
 /-- a sequence of operations; stops at the first one that does not return normally -/
 def runOps (c : Cfg) (d : Nat) : Nat → List UOp → St → St × List Ev × Outcome
